@@ -527,3 +527,7 @@ def install_library_shims():
     clock = types.SimpleNamespace(sleep=coop_sleep, time=vtime)
     mysensors.gateway_serial.time = clock
     mysensors.gateway_tcp.time = clock
+    # an E1 part run earlier in this process may have left its fake clock (bound to a World) in mysensors.handler
+    import mysensors.handler
+
+    mysensors.handler.time = _real_time
